@@ -20,7 +20,8 @@ from oracles.c18 import docsan
 POOL = ["a", "A", "a b", "a-b", "a_", "_a", "a__1", "a__2_", "x__10", "1x", "", " ", None, "sum", "T", "name",
         "shape", "class", "None", "col0_", "col1", "é", "ß", "a\nb", "b", "c", "B", "a.b", "__", "x y z",
         "cols", "column_names", "copy", "a__b__1", "a _ 1", "a__2__2", "a__b", "col", "col_", "colx_", "x__1__2", "0", "1",
-        "Straße", "STRASSE", "strasse", "ﬁle", "FILE", "İ", "i"]
+        "Straße", "STRASSE", "strasse", "ﬁle", "FILE", "İ", "i",
+        "a__01", "run__007", "a__00", "how satisfied are you with the onboarding process overall in 2024"]
 
 _PUBLIC = None
 
@@ -161,7 +162,8 @@ def probe(t, variant, rng_pick):
             except AttributeError:
                 bad.append(("C17/getattr-wrong-column", "column %d is stored as %r but t.%s raises AttributeError" % (j, names0[j], acc), {"how": "simple-name-raises"}))
     elif variant == "str-index":
-        for s in dict.fromkeys(n for n in names0 if isinstance(n, str)):
+        # every occurrence's own name object is tried as the key (equal strings, distinct objects)
+        for s in [n for n in names0 if isinstance(n, str)]:
             first = names0.index(s)
             try:
                 c = t[s]
